@@ -716,8 +716,9 @@ class VAMTransmissionManagement:
         vam:
             The :class:`VAMMessage` that is about to be transmitted.
         """
-        import time as _time_module
-        now = _time_module.time()
+        # Generation time comes from the time service (like every other
+        # timestamp of the message), compared in whole milliseconds.
+        now = TimeService.time()
         has_cluster_op = (
             "vruClusterOperationContainer"
             in vam.vam["vam"]["vamParameters"]
@@ -725,7 +726,7 @@ class VAMTransmissionManagement:
         lf_due = (
             self.is_first_vam
             or self.last_lf_vam_time is None
-            or (now - self.last_lf_vam_time) * 1000
+            or int(now * 1000) - int(self.last_lf_vam_time * 1000)
             >= vam_constants.T_GENVAM_LFMIN
             or has_cluster_op
         )
